@@ -28,12 +28,12 @@ import (
 // ---- header grammar ---------------------------------------------------------------
 
 type HostileHeader struct {
-	Atyp     int    `json:"atyp"`
-	Host     string `json:"host"`      // for atyp 1/3/4
-	DomLen   int    `json:"dom_len"`   // declared domain length (atyp 3), -1 = true length
-	Port     int    `json:"port"`      // -1: use the live target's port
-	TruncAt  int    `json:"trunc_at"`  // cut the serialised header here (-1 = whole)
-	Payload  int    `json:"payload"`
+	Atyp    int    `json:"atyp"`
+	Host    string `json:"host"`     // for atyp 1/3/4
+	DomLen  int    `json:"dom_len"`  // declared domain length (atyp 3), -1 = true length
+	Port    int    `json:"port"`     // -1: use the live target's port
+	TruncAt int    `json:"trunc_at"` // cut the serialised header here (-1 = whole)
+	Payload int    `json:"payload"`
 }
 
 var hostileHosts = []string{"127.0.0.1", "127.9.9.9", "::1", "0.0.0.0", "::", "localhost", "", "nx.verif.test", "a..b", strings.Repeat("x", 255), "127.0.0.1%lo", "[::1]", "::ffff:127.0.0.1"}
@@ -317,7 +317,7 @@ func genC18UDP(t *rapid.T) C18UDP {
 		c.Ops = append(c.Ops, C18UOp{
 			Kind: rapid.SampledFrom([]string{"raw", "plain", "plain", "good", "reply", "reply", "reply", "shutdown"}).Draw(t, "kind"),
 			Raw:  rapid.SampledFrom([]int{0, 1, 15, 16, 17, 31, 32, 33, 48, 49, 50, 1000, 65507}).Draw(t, "raw"), Header: genHostileHeader(t),
-			Src:  rapid.SampledFrom(c18SrcClasses).Draw(t, "src"), Size: rapid.SampledFrom([]int{0, 1, 100, 1472, 9000, 65000, 65400, 65507}).Draw(t, "size"),
+			Src: rapid.SampledFrom(c18SrcClasses).Draw(t, "src"), Size: rapid.SampledFrom([]int{0, 1, 100, 1472, 9000, 65000, 65400, 65507}).Draw(t, "size"),
 			Seed: rapid.Int64Range(1, 1<<40).Draw(t, "seed"), Key: rapid.IntRange(0, len(c.Keys)-1).Draw(t, "key")})
 	}
 	return c
